@@ -93,7 +93,8 @@ RawSrvViol(e) ==
                   ELSE LET m == e.out[1] IN
                        (IF m.c # e.k \/ m.flags # FLAG_VERSION + FLAG_REPLY \/ m.size # 8 \/ m.nfds # 0
                         THEN {"C01/request-server/ack-header/k=" \o Str(e.k)} ELSE {})
-                       \cup (IF m.val # ExpectedAckVal(e) THEN {"C18/ack-value/" \o KTag(e)} ELSE {}))
+                       \* (also in terms of C01: the payload of the acknowledgement is not the encoding of the handler's result)
+                       \cup (IF m.val # ExpectedAckVal(e) THEN {"C18/ack-value/" \o KTag(e), "C01/request-server/ack-payload/" \o KTag(e)} ELSE {}))
          IN IF e.seg = <<>> THEN dev
             ELSE IF dev = {} THEN {} ELSE {"C08/frontend-server/segmented-request-mishandled/k=" \o Str(e.k) \o "/" \o e.res}
 
